@@ -1,6 +1,7 @@
 //! C18 — Camt053 import conserves the statement.
 
 use serde_json::json;
+use std::collections::BTreeMap;
 
 use crate::checks::book::run_code;
 use crate::checks::import_common::{q_text, run_import, CamtCase, TreePosting, PARTY_NAMES};
@@ -30,6 +31,13 @@ impl Check for C18 {
             case.config_yaml.push_str("  - matcher:\n      additional_entry_info: \".\"\n    account: Expenses:Matched\n    pending: true\n");
         }
         case.config_yaml.push_str("  - matcher:\n      domain_sub_family: SALA\n    account: Income:Salary\n");
+        // in one statement in three a last rule whose map combines a capturing field with a payee
+        // pattern: the fields of one map are taken in field-name order, each seeing the payee as
+        // captured so far, so the payee pattern is matched against the entry information
+        let and_map_rule = rng.chance(1, 3);
+        if and_map_rule {
+            case.config_yaml.push_str("  - matcher:\n      additional_entry_info: \"(?P<payee>.+)\"\n      payee: \"^Money Bank$\"\n    account: Expenses:AndMap\n");
+        }
         let dir = ctx.scratch.join(format!("c18-{}", idx));
         let Ok((cfg, src)) = case.write(&dir) else {
             rec.skip();
@@ -57,10 +65,13 @@ impl Check for C18 {
         // expected movements in processing order
         let order = case.processing_order();
         let mut expected: Vec<(Q, chrono::NaiveDate, Option<chrono::NaiveDate>, Option<Q>, Option<String>)> = Vec::new();
+        // entry information of the entries booked as one transaction (no details), by position
+        let mut plain_entry_info: BTreeMap<usize, String> = BTreeMap::new();
         for e in &order {
             let date = e.value.unwrap_or(e.booking);
             let eff = if date != e.booking { Some(e.booking) } else { None };
             if e.details.is_empty() {
+                plain_entry_info.insert(expected.len(), e.additional_info.clone());
                 expected.push((e.signed(), date, eff, None, None));
             } else {
                 for d in &e.details {
@@ -127,11 +138,30 @@ impl Check for C18 {
                     return;
                 }
             }
+            if and_map_rule {
+                if let Some(info) = plain_entry_info.get(&k) {
+                    let fired = t.posts.iter().any(|p| p.account == "Expenses:AndMap");
+                    let want = info == "Money Bank";
+                    if fired != want {
+                        rec.violation(
+                            "and-map-rule-differs",
+                            &format!("{}|{}", class, if want { "must-fire" } else { "must-not-fire" }),
+                            &what(&format!("entry information `{}`: the rule `additional_entry_info: (?P<payee>.+)` + `payee: ^Money Bank$` {} fire", info, if want { "did not" } else { "did" })),
+                            wit(json!({"output": imp.text})),
+                        );
+                        return;
+                    }
+                    rec.count(if fired { "and-map-rule:fired" } else { "and-map-rule:not-fired" });
+                }
+            }
             if pending_rule {
                 // the counter-posting of every record: the salary rule's account unflagged, otherwise
                 // the catch-all rule's account (or an Unknown account), flagged pending
                 let counter: Vec<&TreePosting> = t.posts.iter().filter(|p| p.account != case.account && p.account != "Expenses:Commissions").collect();
                 for p in counter {
+                    if p.account == "Expenses:AndMap" {
+                        continue;
+                    }
                     let salary = p.account == "Income:Salary";
                     let pending = p.state == '!' || t.state == '!';
                     if salary == pending {
